@@ -696,6 +696,44 @@ fn case_trace_inner(case: &Case) -> Trace {
     t
 }
 
+/// Zipped deployment (Rules/Languages/xx/xx.zip, Rules/Braille/Code/Code.zip as written by build.rs): the archive of the
+/// configuration that is switched into is missing, empty or garbage at the first request, then restored, and the same
+/// configuration is requested again in the same session.
+pub fn zipped_directed() -> Vec<Trace> {
+    let mut v = Vec::new();
+    let en = Config::new("en", "ClearSpeak", "Nemeth");
+    for (other, zip) in [
+        (Config::new("es", "ClearSpeak", "Nemeth"), format!("{}/Languages/es/es.zip", MOUNT_A)),
+        (Config::new("en", "ClearSpeak", "CMU"), format!("{}/Braille/CMU/CMU.zip", MOUNT_A)),
+        (Config::new("sv", "ClearSpeak", "Swedish"), format!("{}/Languages/sv/sv.zip", MOUNT_A)),
+    ] {
+        for kind in [FaultKind::Deleted, FaultKind::Empty, FaultKind::Garbage] {
+            for back_first in [false, true] {
+                let mut t = Trace::new("C14", "C14");
+                t.origin = format!("zipped deployment: {} {:?} back_first={}", zip, kind, back_first);
+                t.world.zipped = true;
+                let mut s = vec![ensure_step(MOUNT_A, &en, "All", true), probe_step("base", 2), clock(1000), Step::Env(EnvEvent::Fault { path: zip.clone(), kind: kind.clone() }), clock(1000)];
+                s.push(ensure_step(MOUNT_A, &other, "All", false));
+                s.push(probe_step("faulted", 2));
+                if back_first {
+                    s.push(ensure_step(MOUNT_A, &en, "All", false));
+                    s.push(probe_step("back", 2));
+                    s.push(expect_equal_step("base", "back"));
+                }
+                s.push(clock(1500));
+                s.push(Step::Env(EnvEvent::Repair { path: zip.clone() }));
+                s.push(Step::Check { kind: "settle".into(), args: json!({}) });
+                s.push(ensure_step(MOUNT_A, &other, "All", true));
+                s.push(probe_step("after", 2));
+                s.push(expect_ref_step("after", MOUNT_A));
+                t.sessions = vec![s];
+                v.push(t);
+            }
+        }
+    }
+    v
+}
+
 pub struct Enumeration {
     pub cases: Vec<Case>,
     pub reachable: BTreeMap<String, Vec<String>>,
